@@ -32,6 +32,9 @@ Check c06_caller_frames_in_call_order :
   forall fuel c s rs ws cancels wsched acc,
     is_prefix (flat_map (user_frame packet) (aconv packet parse ver_of is_keepalive version m verify pong fuel c s rs ws cancels wsched acc)) (concat wsched).
 Check c06_model_state_is_the_struct : state_tied = true.
+Check c06_reply_whole_or_the_error_is_returned : forall pong ws d r ws',
+  reply_then_return pong ws = (d, r, ws') ->
+  (r = WOk -> d = pong) /\ (forall e, r = WErr e -> exists rest, pong = d ++ rest /\ rest <> []).
 Print Assumptions c06_delivered_is_prefix.
 Print Assumptions c06_success_means_whole_frame.
 Print Assumptions c06_completes_under_fair_transport.
@@ -41,3 +44,4 @@ Print Assumptions c06_conversation_writes.
 Print Assumptions c06_writes_never_split_a_reply.
 Print Assumptions c06_caller_frames_in_call_order.
 Print Assumptions c06_model_state_is_the_struct.
+Print Assumptions c06_reply_whole_or_the_error_is_returned.
